@@ -86,6 +86,24 @@ pub fn run(case: &Value) -> Value {
                 Err(e) => json!({"ok": false, "err": "other", "text": format!("{e:?}").chars().take(160).collect::<String>()}),
             }
         }
+        // the public struct API: a cached layer request whose callbacks keep the restored layer
+        "keep" => {
+            let ctx = crate::c01::context(&layers);
+            match ctx.cached_layer(
+                &name,
+                libcnb::layer::CachedLayerDefinition {
+                    build: true,
+                    launch: false,
+                    invalid_metadata_action: &|_: &libcnb::generic::GenericMetadata| {
+                        libcnb::layer::InvalidMetadataAction::<libcnb::generic::GenericMetadata>::DeleteLayer
+                    },
+                    restored_layer_action: &|_: &libcnb::generic::GenericMetadata, _| libcnb::layer::RestoredLayerAction::KeepLayer,
+                },
+            ) {
+                Ok(_) => json!({"ok": true}),
+                Err(e) => json!({"ok": false, "err": "other", "text": format!("{e:?}").chars().take(160).collect::<String>()}),
+            }
+        }
         // C01 at the level of the file system: a fresh layer, then entries somebody planted at its SBOM paths,
         // then LayerRef::write_sboms; the snapshot "before" is taken after the planting
         "write_sboms" => {
